@@ -111,6 +111,12 @@ fn parse_single_chord(
         );
     }
     let action = parse_action(&chunk[1], s)?;
+    if contains_chord_action(action) {
+        bail_expr!(
+            &chunk[1],
+            "The chord action cannot be used within defchordsv2"
+        );
+    }
     let timeout = parse_timeout(&chunk[2], s)?;
     let release_behaviour = parse_release_behaviour(&chunk[3], s)?;
     let disabled_layers = parse_disabled_layers(&chunk[4], s)?;
